@@ -471,17 +471,19 @@ Theorem lget_by_id s h sl he b t : Inv s -> lcontainer s h sl he b -> sl <> LRef
 Proof.
   intros H C NR Ht. destruct C as [F [K B]].
   pose proof (find_id_member s he sl t H Ht) as FI.
-  pose proof (find_ent_in ids Nmax s t H (members_ents _ _ _ _ Ht)) as Ft.
+  pose proof (members_ents _ _ _ _ Ht) as Hin.
+  pose proof (find_ent_in ids Nmax s t H Hin) as Ft.
+  pose proof (eid_nonempty s t H Hin) as Ne.
   assert (GK : group_find_key ids repaired (members s he sl) (eid t) = Some t).
-  { unfold group_find_key, ident_of_key. rewrite eid_uuid. unfold group_find. simpl. rewrite (eid_nonempty t). simpl.
-    rewrite (eid_nonempty t), FI. reflexivity. }
+  { unfold group_find_key, ident_of_key. rewrite (eid_uuid s t H Hin). unfold group_find. simpl. rewrite Ne. simpl.
+    rewrite Ne, FI. reflexivity. }
   assert (GH : group_find ids repaired (members s he sl) (e_name t) (eid t) = Some t).
-  { unfold group_find. rewrite (eid_nonempty t). simpl.
+  { unfold group_find. rewrite Ne. simpl.
     replace (negb (negb (is_empty_str (e_name t))) && false) with false by (destruct (is_empty_str (e_name t)); reflexivity).
-    rewrite (eid_nonempty t), FI. rewrite String.eqb_refl. destruct (negb (is_empty_str (e_name t))); reflexivity. }
+    rewrite Ne, FI. rewrite String.eqb_refl. destruct (negb (is_empty_str (e_name t))); reflexivity. }
   simpl. unfold do_link_op. rewrite F, K, B. simpl. unfold hent, hid, hent. rewrite Ft.
   destruct sl; try congruence; simpl; beh; unfold esrc_has, esrc_get; beh;
-    rewrite ?(eid_nonempty t), ?FI, ?GK, ?GH; auto.
+    rewrite ?Ne, ?FI, ?GK, ?GH; auto.
 Qed.
 
 (** references by id, by name and by handle — for a target that is an array of the holder's block (which is what
@@ -501,13 +503,15 @@ Theorem lget_reference s h he b t : Inv s -> lcontainer s h LRefs he b ->
 Proof.
   intros H C Ht Hb. destruct C as [F [K B]].
   pose proof (find_id_member s he LRefs t H Ht) as FI.
-  pose proof (find_ent_in ids Nmax s t H (members_ents _ _ _ _ Ht)) as Ft.
+  pose proof (members_ents _ _ _ _ Ht) as Hin.
+  pose proof (find_ent_in ids Nmax s t H Hin) as Ft.
+  pose proof (eid_nonempty s t H Hin) as Ne.
   assert (Kt : e_kind t <> KFeature) by (apply children_in in Hb; destruct Hb as [_ [_ Kt]]; congruence).
   assert (R1 : ref_get ids repaired (children s (Some b) KArray) (members s he LRefs) (eid t) = Some t).
-  { unfold ref_get. rewrite resolve_entity_id_repaired, (block_find_key_by_id s _ _ t H Hb), (eid_nonempty t). exact FI. }
+  { unfold ref_get. rewrite resolve_entity_id_repaired, (block_find_key_by_id s _ _ t H Hb), Ne. exact FI. }
   assert (R2 : ref_get ids repaired (children s (Some b) KArray) (members s he LRefs) (e_name t) = Some t).
   { unfold ref_get. rewrite resolve_entity_id_repaired. rewrite <- (named_link_name t Kt).
-    rewrite (block_find_key_by_name s _ _ t H Hb), (eid_nonempty t). exact FI. }
+    rewrite (block_find_key_by_name s _ _ t H Hb), Ne. exact FI. }
   simpl. unfold do_link_op. rewrite F, K, B. simpl. unfold hent. rewrite Ft, R1, R2, String.eqb_refl. auto.
 Qed.
 
